@@ -711,6 +711,10 @@ Fixpoint r_trees_loop (fuel : nat) (s : rs) (l : tb_locals) (tb : option nat) : 
   end.
 
 Variable exclude_trees : bool.
+(* variant: with characters excluded the reader skips a SETS / ASSUMPTIONS / CODONS block to its END
+   like every other block it does not read (repaired form) instead of leaving it unconsumed and
+   scanning its tokens for BEGIN (form as found) *)
+Variable v_sets_consume : bool.
 
 Definition r_parse_trees_block (fuel : nat) (s : rs) : res rs :=
   let z0 := cast_ucase (k_z (r_k s)) in
@@ -762,7 +766,11 @@ Fixpoint r_blocks_loop (fuel : nat) (s : rs) : res rs :=
       else if otok_is token K_TREES then
         do s5 <- r_parse_trees_block fuel (mkRs k4 (r_g s) (r_tls s) (r_tlreg s)) ;; r_blocks_loop f s5
       else if is_sets_kw token then
-        r_blocks_loop f (mkRs k4 (r_g s) (r_tls s) (r_tlreg s))   (* `if not self.exclude_chars:` - nothing is consumed *)
+        if v_sets_consume then
+          do k5 <- zstep k4 (consume_to_end_of_block fuel token) ;;
+          r_blocks_loop f (mkRs k5 (r_g s) (r_tls s) (r_tlreg s))
+        else
+          r_blocks_loop f (mkRs k4 (r_g s) (r_tls s) (r_tlreg s))   (* `if not self.exclude_chars:` - nothing is consumed *)
       else if otok_is token K_BEGIN then Err ParseErr
       else
         do k5 <- zstep k4 (consume_to_end_of_block fuel token) ;;
@@ -915,6 +923,7 @@ Variable add_comments : T -> list str -> T.
                     given (repaired form) instead of assigning None (current form: false) *)
 Variables v_attach v_keep_label : bool.
 Variable v_link_ucase : bool.   (* see Section Drivers *)
+Variable v_sets_consume : bool. (* see Section Drivers *)
 
 Definition doc : Type := (list token * tend)%type.
 Definition doc_tz (d : doc) : tz := tz_init (fst d) (snd d).
@@ -950,7 +959,7 @@ Definition rs_list0 (s : rs T) : list T := tl_trees (nth O (r_tls s) (mkTl None 
 Definition rs_ns0 (s : rs T) : list str := nth O (k_nss (r_k s)) [].
 
 Definition nexus_read (c : cfg) (ns0 : list str) (d : doc) : res (rs T) :=
-  r_parse_nexus_stream T lower upper parse_tree set_label add_comments v_link_ucase (c_ns c) (c_tlfac c) false (doc_fuel d) (nexus_init c ns0 d).
+  r_parse_nexus_stream T lower upper parse_tree set_label add_comments v_link_ucase (c_ns c) (c_tlfac c) false v_sets_consume (doc_fuel d) (nexus_init c ns0 d).
 
 Definition newick_read (ns0 : list str) (d : doc) : res (list T * list str) :=
   do r <- newick_read_loop T parse_tree (doc_fuel d) (new_mapper lower ns0 false) (doc_tz d) [] ;;
@@ -1200,6 +1209,7 @@ Record case : Type := mkCase {
   k_vattach : bool;                (* which form the working tree has, see Section Routes *)
   k_vkeep : bool;
   k_vlink : bool;
+  k_vsets : bool;
   k_nexus : bool;
   k_lower : list (Z * Z);          (* non-ASCII (upper, lower) pairs occurring in the document *)
   k_toks : list token;
@@ -1219,21 +1229,21 @@ Let sch := if k_nexus k then Nexus else Newick.
 Let d : doc := (k_toks k, k_end k).
 Let PT := sk_parse_tree lo.
 
-Definition m_treelist_read := treelist_read sktree lo up PT sk_set_label sk_add_comments (k_vattach k) (k_vlink k) sch.
+Definition m_treelist_read := treelist_read sktree lo up PT sk_set_label sk_add_comments (k_vattach k) (k_vlink k) (k_vsets k) sch.
 Definition m_yield := yield_from_files sktree lo up PT sk_set_label sk_add_comments (k_vlink k) sch.
 
 Definition route_run (r : route) : robs :=
   match r with
-  | RList => OList (treelist_get sktree lo up PT sk_set_label sk_add_comments (k_vattach k) (k_vlink k) sch d)
-  | RListOff c kk => OTrees (treelist_get_off sktree lo up PT sk_set_label sk_add_comments (k_vattach k) (k_vlink k) sch c kk d)
-  | RTree c kk => OTree (tree_get sktree lo up PT sk_set_label sk_add_comments (k_vattach k) (k_vkeep k) (k_vlink k) sch c kk d)
+  | RList => OList (treelist_get sktree lo up PT sk_set_label sk_add_comments (k_vattach k) (k_vlink k) (k_vsets k) sch d)
+  | RListOff c kk => OTrees (treelist_get_off sktree lo up PT sk_set_label sk_add_comments (k_vattach k) (k_vlink k) (k_vsets k) sch c kk d)
+  | RTree c kk => OTree (tree_get sktree lo up PT sk_set_label sk_add_comments (k_vattach k) (k_vkeep k) (k_vlink k) (k_vsets k) sch c kk d)
   | RRead ns0 => OList (m_treelist_read ns0 d)
-  | RReadTwice ns0 => OList (treelist_read_twice sktree lo up PT sk_set_label sk_add_comments (k_vattach k) (k_vlink k) sch ns0 d)
+  | RReadTwice ns0 => OList (treelist_read_twice sktree lo up PT sk_set_label sk_add_comments (k_vattach k) (k_vlink k) (k_vsets k) sch ns0 d)
   | RYield ns0 => let '(out, r) := m_yield ns0 d in OYield out r
   | RArray kk =>
     let '(out, r) := treearray_read sktree lo up PT sk_set_label sk_add_comments (k_vlink k) sch kk [] d in
     OCount (length out) (do _ <- r ;; Ok tt)
-  | RDataset a => OBlocks (dataset_get sktree lo up PT sk_set_label sk_add_comments (k_vlink k) sch a d)
+  | RDataset a => OBlocks (dataset_get sktree lo up PT sk_set_label sk_add_comments (k_vlink k) (k_vsets k) sch a d)
   end.
 
 Definition sks_eqb := list_eqb sk_eqb.
